@@ -291,6 +291,62 @@ class Scenario(apiworld.ApiWorld):
         return repr((closes, [round(r[0], 3) for r in self.console.requests if r[2] == "req-version"]))
 
 
+def lingering_close_cases(chk):
+    """The one piece of back-pressure C08 looks at (outside the timed model): the link goes silent AND stalled, the
+    heartbeat deadline resets it, and the close of the old stream lingers on its unsent bytes for longer than any
+    heartbeat period.  However long that takes, once the old stream is gone the connection is re-established and the
+    heartbeat goes on."""
+    from . import sockcommon
+    import pyairtouch.comms.socket as S
+    n = 0
+    for gen in (4, 5):
+        for linger in (1.0, 29.0, 31.0, 100.0):
+            w = Scenario({"gen": gen, "mode": "bare", "config": [10.0, 15.0], "beats": 99, "side": 0})
+            L = w.loop
+            w.do(("answer",))
+            L.settle()
+            t = w.net.live()[-1]
+            t.pause()
+            L.settle()
+            msg = sockcommon.catalogue(gen)[0][0][1]
+
+            async def user_send(w=w, msg=msg):
+                try:
+                    await w.sock.send(msg, S.RETRY_IDEMPOTENT)
+                except Exception:  # noqa: BLE001
+                    pass
+            w.spawn(user_send())
+            L.run_until(15.0 + linger)
+            n += 1
+            chk.counters["executions"] += 1
+            label = f"at{gen}: silent and stalled link, heartbeat reset at t=15, old stream gone {linger} s later"
+            closes = [e[0] for e in w.net.log if e[1] == "close" and e[3] == "client"]
+            problem = None
+            if closes != [15.0]:
+                problem = f"client closes at {closes}, expected the heartbeat reset at t=15.0"
+            else:
+                t.resume()
+                L.run_until(15.0 + linger + 12.0)
+                if len(w.net.conns) < 2:
+                    problem = f"no new connection within 12 s after the old stream was gone (connections opened: {len(w.net.conns)})"
+                else:
+                    vers = [r[0] for r in w.console.requests if r[2] == "req-version" and r[1] == w.net.conns[1].cid]
+                    if not vers:
+                        problem = "re-connected, but no version request on the new connection within 12 s (the heartbeat has stopped)"
+            if problem:
+                chk.violation(f"at{gen}:lingering-close", f"{label}: {problem}",
+                              {"kind": "input", "module": "pvmc.props.c08", "gen": gen, "linger": linger})
+    chk.cov["lingering_close_cases"] = n
+
+
+def replay_input(rp):
+    c = runner.Check("C08", "quick", 0, "model_checking")
+    lingering_close_cases(c)
+    for s_, r in c.violations.items():
+        return r["message"]
+    return None
+
+
 def run(tier, seed, part=None):
     chk = runner.Check("C08", tier, seed, "model_checking")
     chk.trusted_base = ["CPython 3.12 asyncio unmodified (asyncio.timeout, Event, gather)", "pvmc.vloop.VLoop", "pvmc.simnet",
@@ -315,5 +371,6 @@ def run(tier, seed, part=None):
             chk.add_explorer(f"at{gen}/{mode}/{cfg[0]:g}-{cfg[1]:g}/{beats}beats", SPEC, params, res,
                              {"heartbeats": beats, "deviations": dev, "config": list(cfg), "side_events_each": side,
                               "answer_instants": "now, req+30-eps, req+30, req+30+eps, req+interval-eps, deadline-eps, deadline, never"})
+    lingering_close_cases(chk)
     chk.add_audit(SPEC, {"gen": 4, "mode": "bare", "config": [10.0, 15.0], "beats": 1, "side": 1}, 40, 0, limit=4000 if tier == "thorough" else 500)
     return chk.finish()
